@@ -558,6 +558,9 @@ func (f *Frame) callLib(i *ssa.Call, g *ssa.Function, args []Val, st *State, r s
 		sz := "(sizeAt " + s + " " + p + ")"
 		c.assume(r, "(=> (< "+p+" (slen "+s+")) (and (<= 1 "+sz+") (<= "+sz+" 4) (<= (+ "+p+" "+sz+") (slen "+s+"))))")
 		return Val{Tup: []Val{tv(rn, "Int"), tv(sz, "Int")}}
+	case "unicode/utf8.RuneLen":
+		// byte length of the encoding of a (valid) rune
+		return tv("(slen (runeStr "+args[0].T+"))", "Int")
 	case "strconv.ParseInt":
 		errv := c.fresh("perr", "Int")
 		c.assume(r, "(and (<= 0 "+errv+") (= (= "+errv+" 0) (parseOK "+args[0].T+")))")
